@@ -23,7 +23,7 @@ NoCfg == [name |-> "none"]
 Scalar(z) == [shape |-> <<1, 1>>, vals |-> <<z>>]
 Lat(L, bc, mps, t, cells) == [name |-> "Chain", Lx |-> L, Ly |-> 1, bcx |-> bc, bcy |-> "open", mps |-> mps, uc |-> <<t>>, cells |-> cells]
 ConfigsQuick == {Lat(3, "open", "finite", "spin", 1), Lat(3, "open", "finite", "fermion", 1),
-                 Lat(2, "periodic", "infinite", "spin", 2)}
+                 Lat(2, "periodic", "infinite", "spin", 2), Lat(1, "periodic", "infinite", "spin", 4)}
 ConfigsOne == {Lat(3, "open", "finite", "fermion", 1)}
 ConfigsTwo == {Lat(3, "open", "finite", "spin", 1), Lat(2, "periodic", "infinite", "spin", 2)}
 ConfigsFull == ConfigsQuick \cup {Lat(4, "open", "finite", "spin", 1), Lat(4, "periodic", "finite", "fermion", 1),
@@ -37,9 +37,12 @@ Multi3(z, o1, o2, o3, hc) == [kind |-> "multi", s |-> Scalar(z), str |-> "auto",
 
 \* operator catalogue: sequences of declarations.  Pairs differing in one long-range term (strength or presence),
 \* Hermitian and non-Hermitian ones (complex strength, missing conjugate), on-site only, diagonal.
+\* range of the "long-range" coupling in which two otherwise equal operators differ; for the one-site infinite unit cell
+\* it does not fit into the L + 2 * max_range sites the shorter-range operator alone would look at
+FarRange(c) == IF Infinite(c) /\ NCell(c) = 1 THEN 3 ELSE IF Sx(c) >= 3 THEN 2 ELSE 1
 CatalogueAll(c) ==
     LET t == c.uc[1]
-        far == IF Sx(c) >= 3 THEN 2 ELSE 1
+        far == FarRange(c)
     IN CASE t = "spin" ->
             {<<Coup(<<1, 0>>, "Sigmaz", "Sigmaz", 1, FALSE), Ons(<<2, 0>>, "Sigmax", FALSE)>>,
              <<Coup(<<1, 0>>, "Sigmaz", "Sigmaz", 1, FALSE), Ons(<<2, 0>>, "Sigmax", FALSE), Coup(<<1, 0>>, "Sigmaz", "Sigmaz", far, FALSE)>>,
@@ -68,7 +71,7 @@ Catalogue(c) == IF CatLimit = 0 THEN CatalogueAll(c)
                 ELSE LET first == <<Coup(<<1, 0>>, "Sigmaz", "Sigmaz", 1, FALSE), Ons(<<2, 0>>, "Sigmax", FALSE)>>
                          firstF == <<Coup(<<1, 0>>, "Cd", "C", 1, TRUE), Ons(<<2, 0>>, "N", FALSE)>>
                      IN {ds \in CatalogueAll(c) : ds \in {first, firstF, <<Coup(<<1, 2>>, "Sp", "Sm", 1, FALSE)>>,
-                                                          <<Coup(<<0, 1>>, "Cd", "C", IF Sx(c) >= 3 THEN 2 ELSE 1, FALSE)>>,
+                                                          <<Coup(<<0, 1>>, "Cd", "C", FarRange(c), FALSE)>>,
                                                           <<Ons(<<0, 1>>, "Sigmaz", FALSE)>>}}
 
 RECURSIVE SumDecls(_, _, _)
@@ -137,7 +140,7 @@ Make == cfg # NoCfg /\ \E s \in {"A", "B"}, ds \in Catalogue(cfg), mk \in {"all"
 
 \* both slots at once (so that binary operations are reached early in the exhaustive run)
 PairOps(c) ==
-    LET far == IF Sx(c) >= 3 THEN 2 ELSE 1
+    LET far == FarRange(c)
         t == c.uc[1]
         base == IF t = "spin" THEN <<Coup(<<1, 0>>, "Sigmaz", "Sigmaz", 1, FALSE), Ons(<<2, 0>>, "Sigmax", FALSE)>>
                 ELSE IF t = "fermion" THEN <<Coup(<<1, 0>>, "Cd", "C", 1, TRUE), Ons(<<2, 0>>, "N", FALSE)>>
@@ -162,12 +165,14 @@ PlusIdentity == cfg # NoCfg /\ ~Infinite(cfg) /\ \E s \in {"A", "B"}, al \in {<<
                          [op |-> "plus_identity", s |-> s, alpha |-> al, beta |-> be])
 
 \* representation changes: the operator stays the same
-Represent == \E s \in {"A", "B"}, how \in {"sort_legcharges", "group_sites", "termlist_roundtrip", "copy"} :
+Represent == \E s \in {"A", "B"}, how \in {"sort_legcharges", "group_sites", "termlist_roundtrip", "termlist_roundtrip_rev", "copy"} :
     /\ Filled(s) /\ (how = "group_sites" => NCell(cfg) % 2 = 0) /\ (how # "copy" => AllMarkers(s))
-    /\ (how = "termlist_roundtrip" => cfg.uc[1] = "spin")
+    \* to_TermList(start = all sites, in ascending resp. descending order) followed by from_term_list
+    /\ (how \in {"termlist_roundtrip", "termlist_roundtrip_rev"} => cfg.uc[1] = "spin")
     /\ SetSlot(s, [Get(s) EXCEPT !.decls = IF how = "copy" THEN @ ELSE <<>>], [op |-> how, s |-> s])
 
 QHermitian == \E s \in {"A", "B"} : Filled(s) /\ Step([op |-> "is_hermitian", s |-> s, res |-> MIsHermitian(Get(s).m)], A, B)
+\* equality is symmetric: A.is_equal(B) and B.is_equal(A) both have to return this truth value
 QEqual == Filled("A") /\ Filled("B") /\ Step([op |-> "is_equal", res |-> (A.m = B.m)], A, B)
 
 FrobInner(X, Y) == MTrace(MMul(MDagger(X), Y))
@@ -183,10 +188,14 @@ QExpect == \E s \in {"A", "B"} : Filled(s) /\ ~Infinite(cfg) /\ \E st \in StateC
 \* O|v>: the vector every apply method has to reproduce (up to its reported truncation error)
 ApplyStates(c) == {<<<<5 % D(c), GOne>>>>, <<<<2, GOne>>>>, <<<<0, GOne>>, <<D(c) - 1, GOne>>>>,
                    <<<<1, GOne>>, <<2, <<0, 2>>>>, <<4 % D(c), <<-1, 0>>>>>>}
-QApply == \E s \in {"A", "B"} : Filled(s) /\ ~Infinite(cfg) /\ \E st \in ApplyStates(cfg), meth \in {"naive", "SVD", "zip_up", "variational"} :
+\* compression methods with the option combine (legs combined into pipes inside the sweep engine: must not matter)
+ApplyMethods == {<<"naive", FALSE>>, <<"SVD", FALSE>>, <<"zip_up", FALSE>>, <<"variational", FALSE>>, <<"variational", TRUE>>,
+                 <<"variationalQR", FALSE>>, <<"variationalQR", TRUE>>}
+QApply == \E s \in {"A", "B"} : Filled(s) /\ ~Infinite(cfg) /\ \E st \in ApplyStates(cfg), mc \in ApplyMethods :
     LET v == VecOf(cfg, st)
-    IN (meth = "variational" => NW(cfg) >= 3) /\      \* the two-site sweep engine needs more than two sites
-       Step([op |-> "apply", s |-> s, state |-> st, method |-> meth, den |-> VNorm2(v), w |-> TLCEval(MVec(Get(s).m, v))], A, B)
+        meth == mc[1]
+    IN (meth \in {"variational", "variationalQR"} => NW(cfg) >= 3) /\      \* the two-site sweep engine needs more than two sites
+       Step([op |-> "apply", s |-> s, state |-> st, method |-> meth, combine |-> mc[2], den |-> VNorm2(v), w |-> TLCEval(MVec(Get(s).m, v))], A, B)
 
 \* propagators (only for slots that still know their terms)
 QUI == \E s \in {"A", "B"} : Filled(s) /\ AllMarkers(s) /\ Get(s).decls # <<>> /\ ~Infinite(cfg) /\ \E dt \in {<<0, 0>>, <<1, 0>>, <<0, -1>>, <<2, 1>>} :
